@@ -286,6 +286,62 @@ def config_inventory(
     cover("built")
 
 
+SCHED_ORDERS = [(0, 1, 2), (2, 1, 0), (1, 0, 2), (2, 0, 1)]
+
+
+def schedule_inventory(order_i: int, n_eps: int, via_env: bool):
+    """Episode-scheduled scenario directories: episode e is built from the files listed under key e of schedule.yaml
+    (wrapping around after the last key), whatever order the keys are written in. The generated directory has three
+    variant files that set a visible quantity (the episode length, through a YAML anchor the base scenario refers to)."""
+    import os
+    import shutil
+    import tempfile
+
+    import yaml
+
+    from primaite.game.game import PrimaiteGame
+    from primaite.session.environment import PrimaiteGymEnv
+    from primaite.session.episode_schedule import build_scheduler
+
+    assume(all_of(rng(order_i, 0, len(SCHED_ORDERS) - 1), rng(n_eps, 1, 7)))
+    order = pick(SCHED_ORDERS, order_i)
+    n = pick_int(n_eps, 1, 7)
+    via_env = True if via_env else False
+    with concrete():
+        quiet()
+        tmpdir = tempfile.mkdtemp(prefix="verif_sched20_")
+        try:
+            cfg = mini_scenario("switched", with_green=False, with_red=False, max_episode_length=7777)
+            text = yaml.safe_dump(cfg).replace("max_episode_length: 7777", "max_episode_length: *mel")
+            with open(os.path.join(tmpdir, "base.yaml"), "w") as fh:
+                fh.write(text)
+            for i in range(3):
+                with open(os.path.join(tmpdir, f"v{i}.yaml"), "w") as fh:
+                    fh.write(f"episode_len: &mel {5 + i}\n")
+            with open(os.path.join(tmpdir, "schedule.yaml"), "w") as fh:
+                fh.write("base_scenario: base.yaml\nschedule:\n" + "".join(f"  {k}:\n    - v{k}.yaml\n" for k in order))
+            seen = []
+            try:
+                if via_env:
+                    env = PrimaiteGymEnv(env_config=tmpdir)
+                    seen.append((env.episode_counter, env.game.options.max_episode_length))
+                    for _ in range(n):
+                        env.reset()
+                        seen.append((env.episode_counter, env.game.options.max_episode_length))
+                else:
+                    sched = build_scheduler(tmpdir)
+                    for e in range(n + 1):
+                        g = PrimaiteGame.from_config(sched(e))
+                        seen.append((e, g.options.max_episode_length))
+            except Exception as e:
+                fail(f"episode-scheduled directory with keys written in order {order} raised {type(e).__name__}: {str(e)[:200]}")
+        finally:
+            shutil.rmtree(tmpdir, ignore_errors=True)
+    cover("schedule_built")
+    for e, mel in seen:
+        check(mel == 5 + (e % 3), lambda: f"schedule keys written in order {order}: episode {e} was built with episode length {mel}, the files under key {e % 3} declare {5 + (e % 3)}")
+
+
 NS_PCS = [1, 8, 23, 24, 25, 47]
 NS_BW = [100, 150, 37]
 
@@ -447,6 +503,13 @@ HARNESSES = {
         "thorough": [{"fixed": {"b_users": u, "b_files": f, "b_dnsopt": f, "b_off": o, "b_nmne": o, "b_prev": p, "perm": p}, "timeout": 1500} for u in (False, True) for f in (False, True) for o in (False, True) for p in (False, True)],
         "cover": ["built", "perm"],
         "bounds": {"quick": "13 presence bits (6 coupled per job; another scenario with the opposite NMNE declaration loaded before), 3 ACL positions (0, 11, 23), 3 durations, 2 bandwidths (one fractional), key-order permutation", "thorough": "all 2^11 presence combinations of the first 11 bits, the dns-client option bit coupled to the files bit"},
+    },
+    "schedule_inventory": {
+        "fn": schedule_inventory,
+        "quick": [{"fixed": {}, "timeout": 280}],
+        "thorough": [{"fixed": {}, "timeout": 600}],
+        "cover": ["schedule_built"],
+        "bounds": "generated episode-scheduled directory with 3 variant files, schedule keys written in 4 orders, 1-7 consecutive episodes (wrapping twice), through build_scheduler + from_config and through PrimaiteGymEnv resets",
     },
     "node_set_inventory": {
         "fn": node_set_inventory,
